@@ -40,7 +40,7 @@ PROPS = {
 
 PROPS['C20'] = dict(
     title='entry points agree',
-    units=['wrap', 'depth'],
+    units=['wrap', 'depth', 'kwstack'],
     engines=[dict(module='gvc.engine', args=dict(analyses=('stateless',)))],
     shims=['A-path/fs', 'A-str', 'A-hashmap'],
     design='DESIGN.md 3/C20',
@@ -73,6 +73,7 @@ PROPS['C18'] = dict(
 PROPS['C16'] = dict(
     title='traversal',
     units=['iter', 'conv', 'derive', 'getstr'],
+    engines=[dict(module='gvc.engine', args=dict(analyses=('faithful',)))],
     shims=['A-node', 'A-vec'],
     design='DESIGN.md 3/C16',
     technique='contract-based deductive verification (Verus) of the verbatim Iter/EventIter bodies, of every From<&..> for RefNodes conversion, of the instantiated derive templates and of get_str/get_str_trim/unwrap_*!; pre-order and balanced-event theorems as lemmas over the step contracts',
